@@ -285,7 +285,6 @@ class _EvaluatorCompiler:
     visit_add_binary_op = _straight_evaluate_numeric_only
     visit_mul_binary_op = _straight_evaluate_numeric_only
     visit_sub_binary_op = _straight_evaluate_numeric_only
-    visit_mod_binary_op = _straight_evaluate_numeric_only
     visit_truediv_binary_op = _straight_evaluate_numeric_only
     visit_lt_binary_op = _straight_evaluate
     visit_le_binary_op = _straight_evaluate
@@ -293,6 +292,17 @@ class _EvaluatorCompiler:
     visit_gt_binary_op = _straight_evaluate
     visit_ge_binary_op = _straight_evaluate
     visit_eq_binary_op = _straight_evaluate
+
+    def visit_mod_binary_op(self, operator, eval_left, eval_right, clause):
+        def mod(a, b):
+            # SQL modulo truncates toward zero: the result takes the sign of
+            # the dividend, where Python's takes the sign of the divisor
+            result = abs(a) % abs(b)
+            return -result if a < 0 else result
+
+        return self._straight_evaluate_numeric_only(
+            mod, eval_left, eval_right, clause
+        )
 
     def _in_evaluate(self, eval_left, eval_right, negate):
         def evaluate(obj):
